@@ -219,7 +219,9 @@ def gen_c09(r, tier):
                     'path': path, 'cycles': r.randint(1, 4),
                     'tddafile': r.chance(0.6),
                     'disturb': r.weighted([(7, None), (1.5, 'delete'),
-                                           (1.5, 'other-set')])})
+                                           (1.5, 'other-set')]),
+                    'default_encoding': r.weighted([(8, None), (1, 'cp1252'),
+                                                    (1, 'latin-1')])})
         for _ in range(r.randint(1, 2)):
             ops.append({'op': 'verdicts', 'client': 'A', 'cs': name,
                         'path': path, 'frame': r.randrange(nframes),
@@ -386,6 +388,7 @@ def execute(plan):
         sys.stdout = io.StringIO()
         sys.stderr = io.StringIO()
         try:
+            ctx.default_encoding = plan['config'].get('default_encoding')
             ctx.specs = plan['config']['frames']
             ctx.frames = [gf.build_frame(s) for s in ctx.specs]
             ctx.cs = {}
@@ -1123,7 +1126,15 @@ def op_roundtrip(ctx, op):
         for k in range(op['cycles']):
             with io.open(path, 'w', encoding='utf-8') as f:
                 f.write(T)
-            loaded = DatasetConstraints(loadpath=path)
+            if op.get('default_encoding'):
+                # the process's preferred encoding is not UTF-8 (Windows
+                # code page, a latin-1 locale)
+                from sim.defaultenc import DefaultEncoding
+                with DefaultEncoding(op['default_encoding'],
+                                     ctx.stats['faults']):
+                    loaded = DatasetConstraints(loadpath=path)
+            else:
+                loaded = DatasetConstraints(loadpath=path)
             dist = op.get('disturb')
             if dist:
                 # between loading the file and using what was loaded, the
